@@ -57,6 +57,22 @@ PROPS = {
                       'code over-approximated by closure arguments and trait impls of mentioned workspace types).',
         'technique': 'dominator / guard-liveness / exhaustiveness / SCC rules over resolved MIR (rustc_private driver)',
     },
+    'C08': {
+        'module': 'c08',
+        'explanation': 'Error-discipline and pairing rules over the MIR of vm.rs and compiler.rs: (X1) every Err that Vm::run can '
+                       'propagate with `?` originates in unwind_stack/try_handle_error, computed as a closure over propagation edges with '
+                       'an origin analysis of each function\'s returned Err; (X2) non-local exits emit a handler-removing opcode; (X3) '
+                       'functions that remove call frames also remove those frames\' handlers; (X4) the catch entry does not pop a second '
+                       'handler.',
+        'assumptions': COMMON_ASSUME,
+        'not_decided': ['which handler receives which exception at run time', '"finally runs exactly once" on every exit (dynamic)',
+                        'exceptions thrown inside catch/finally blocks'],
+        'level_text': 'Decides X1-X4 for every function on a propagation path from Vm::run and for the four statement compilers; dynamic '
+                      'delivery order is not decided.',
+        'design_ref': 'DESIGN.md section 1, C08',
+        'level_note': 'Trusted: rustc front end + MIR, the extractor, the origin analysis\'s wrapper table (Try::branch/from_residual etc.).',
+        'technique': 'error-origin dataflow + propagation closure + emitted-opcode pairing over resolved MIR (rustc_private driver)',
+    },
 }
 
 NOT_APPLICABLE = {
